@@ -131,6 +131,8 @@ pub struct Cfg {
     pub executor_drain: bool,
     /// PollHook is only offered for children with an id below this
     pub hook_max: u32,
+    /// children drop the waker they stored when they complete / are dropped
+    pub release_wakers: bool,
 }
 
 impl Cfg {
@@ -156,6 +158,7 @@ impl Cfg {
             dormant: false,
             up_modes: [Mode::Gate, Mode::Ready, Mode::Ready],
             hook_max: u32::MAX,
+            release_wakers: false,
             pre_polls: 0,
             pool_max: 2,
             focus_strict: false,
@@ -1637,6 +1640,7 @@ pub(crate) fn begin<'a>(cfg: &'a Cfg, prefix: &[u8], log_on: bool) -> Run<'a> {
         w.up.hint = cfg.hint;
         w.up.is_try = cfg.kind.is_try();
         w.up.modes = cfg.up_modes;
+        w.release_wakers = cfg.release_wakers;
         w.up.limit = if cfg.kind.is_adapter() && !matches!(cfg.kind, Kind::Fec(_)) && cfg.limit() != usize::MAX { cfg.limit() } else { 0 };
         w.up.ordered = matches!(cfg.kind, Kind::Bo(_) | Kind::Tbo(_));
         w.dormant = cfg.dormant;
